@@ -185,6 +185,19 @@ def run_overlap(rp, ops, at):
             state['nested'] = (list(s.rec[mark:]), err)
             del s.rec[mark:]
             state['took_place'] = True
+    # second window: control_cb marks the pilots of a remove command REMOVED under the pilots lock, releases it, and only
+    # then has the scheduler take them out of its list (remove_pilots)
+    orig_remove = s.remove_pilots
+    def remove_pilots(pids):
+        if state['hook'] is not None and not any(l.depth for l in locks.values()):
+            op_b, state['hook'] = state['hook'], None
+            mark = len(s.rec)
+            err = dispatch(rp, s, op_b)
+            state['nested'] = (list(s.rec[mark:]), err)
+            del s.rec[mark:]
+            state['took_place'] = True
+        return orig_remove(pids)
+    s.remove_pilots = remove_pilots
     s._schedule_tasks, s.advance = sched_pass, advance
     res, j = [], 0
     while j < len(ops):
@@ -235,7 +248,8 @@ def overlap_part(ctx, rp):
         seq = [(r['outs'], r['err']) for r in res0]
         seq_snap = res0[-1]['state'] if res0 else None
         for at in range(len(ops) - 1):
-            if not any(o[0] == 'fwd' for o in seq[at][0]): continue       # nothing handed on in this callback
+            # (a callback that hands tasks on, or a remove command that is accepted)
+            if not any(o[0] == 'fwd' for o in seq[at][0]) and not (ops[at]['op'] == 'remove' and not seq[at][1]): continue
             res, snap, tp = run_overlap(rp, ops, at)
             n += 1; took += tp
             ctx.case({'overlap': at, 'ops': ops}, nontrivial=tp)
